@@ -47,6 +47,8 @@ class ExpressionSolver:
 
     def solve(self, expr:Union[str,Expression]):
         self.expr = Expression(expr) if isinstance(expr, str) else expr
+        # start every call with empty token buffers (a previous call may have failed part-way)
+        self.tokens = Tokens(self.tokens.atom)
         
         # Tokenize expression
         while self.expr.right:
